@@ -1,10 +1,16 @@
 (* C19 - the event trace is a faithful account from which state can be rebuilt. Property theorems only.
-   The theorems fix the meaning of "applying the events as set operations" (Model/Trace.v [replay]); that the
-   REAL trace replays to the REAL router state, and the exactly-once clauses, are decided on every run by
-   the monitors of Run/GossipRun.v and Run/SimpleRun.v on the events an attached tracer received. *)
+   The first group fixes the meaning of "applying the events as set operations" (Model/Trace.v [replay]).  The second
+   group is the property on the model: for ANY two views the trace a transition owes ([diff_events]: leaves, removed
+   peers, prunes, joins, added peers, grafts) replays from the old view to the new one and its JOIN / LEAVE events
+   alternate; hence for EVERY history of the router model (Model/Router.v [step]: joins, leaves, GRAFT / PRUNE handling,
+   heartbeats, peers coming and going) the accumulated trace rebuilds the peer set and every mesh of the final state.
+   That the REAL trace replays to the REAL router state (which the runner also compares with the model state), and the
+   exactly-once clauses, are decided on every run by the monitors of Run/GossipRun.v and Run/SimpleRun.v on the
+   events an attached tracer received. *)
 From Coq Require Import List Bool Arith.
 Import ListNotations.
-From PS Require Import Model.Router Model.Trace Proofs.TraceProofs.
+From Coq Require Import ZArith.
+From PS Require Import Model.Router Model.Trace Proofs.TraceProofs Proofs.TraceDiff.
 
 Theorem C19_replay_graft : forall v p t q u,
   in_mesh (replay1 v (TGraft p t)) u q = (joined v t && Nat.eqb u t && Nat.eqb q p) || in_mesh v u q.
@@ -30,9 +36,34 @@ Theorem C19_replay_joined : forall l v j,
 Proof. exact replay_joined. Qed.
 Print Assumptions C19_replay_joined.
 
+(* the owed trace of ANY transition replays, from any view agreeing with the old state, to the new state *)
+Theorem C19_owed_trace_rebuilds : forall a b v, vagree v a -> vagree (replay v (diff_events a b)) b.
+Proof. exact replay_diff. Qed.
+Theorem C19_owed_trace_alternates : forall a b j, (forall u, memb u j = joined a u) ->
+  alt_ok j (diff_events a b) = true /\ (forall u, memb u (joined_after j (diff_events a b)) = joined b u).
+Proof. exact alt_ok_diff. Qed.
+(* every history of the router model: the accumulated trace rebuilds the final peer set and meshes, and alternates *)
+Theorem C19_trace_faithful : forall P l s tr,
+  run_trace P init l = Some (s, tr) -> vagree (replay tview0 tr) (view_of s) /\ alt_ok [] tr = true.
+Proof. exact trace_faithful. Qed.
+Print Assumptions C19_trace_faithful.
+
 Example C19_nonvacuous :
   let l := [TAddPeer 1; TAddPeer 2; TJoin 0; TGraft 1 0; TGraft 2 0; TDeliver 7; TSend 1; TRemovePeer 2; TPrune 1 0; TLeave 0; TJoin 1; TGraft 1 1] in
   alt_ok [] l = true
   /\ tview_eqb (replay tview0 l) {| tv_peers := [1]; tv_mesh := [(1, [1])] |} = true
   /\ alt_ok [] [TJoin 0; TJoin 0] = false.
 Proof. vm_compute. repeat split. Qed.
+
+Example C19_run_nonvacuous :
+  let P := {| pD := 2; pDlo := 1; pDhi := 3; pDscore := 1; pDout := 0;
+              pPruneBackoff := 60000000000; pUnsubBackoff := 10000000000; pSlack := 1000000000; pGraftFlood := 10000000000;
+              pOGTicks := 60; pOGPeers := 2; pOGThreshold := 1; pFanoutTTL := 60000000000; pPublishThr := -50 |}%Z in
+  let i := {| pi_mesh := true; pi_px := true; pi_out := true |} in
+  match run_trace P init [([], OAddPeer 1 i); ([], OAddPeer 2 i); ([], OSub 1 0); ([], OSub 2 0); ([], OJoin 0 [1; 2]);
+                          ([], ORecvPrune 1 [(0, None)]); ([], ODisconnect 2); ([], OLeave 0)] with
+  | Some (s, tr) => tr = [TAddPeer 1; TAddPeer 2; TJoin 0; TGraft 1 0; TGraft 2 0; TPrune 1 0; TRemovePeer 2; TLeave 0]
+                    /\ tview_eqb (replay tview0 tr) (view_of s) = true
+  | None => False
+  end.
+Proof. vm_compute. split; reflexivity. Qed.
